@@ -365,6 +365,68 @@ Section Mozart.
     - destruct (Nat.ltb_spec c m); destruct (Nat.ltb_spec c (S m)); try lia; reflexivity.
   Qed.
 
+  (* ================= the diagonal of L: set to one at the start, never written again ================= *)
+  Lemma lcol_diag i (L : mat) d :
+    fold_left (il_set i) (range (i + 1) n) (mset N L i i 1!) d d = if d =? i then 1! else L d d.
+  Proof.
+    destruct (sweep_spec Ap A i (range (i + 1) n) (range_NoDup (i + 1) n) (mset N L i i 1!)) as [_ S2].
+    cbv zeta in S2. unfold il_set.
+    destruct (Nat.eqb_spec d i) as [-> | Hne].
+    - rewrite S2 by (right; left; rewrite range_In; lia). apply mset_same.
+    - rewrite S2 by (left; exact Hne). apply mset_other. left; exact Hne.
+  Qed.
+
+  Lemma linit_diag m : forall (L : mat) d,
+    fold_left (fun L i => fold_left (il_set i) (range (i + 1) n) (mset N L i i 1!)) (seq 0 m) L d d =
+    if d <? m then 1! else L d d.
+  Proof.
+    induction m as [|m IH]; intros L d; [reflexivity|].
+    rewrite seq_S, fold_left_app. cbn [fold_left plus]. rewrite lcol_diag. rewrite IH.
+    destruct (Nat.eqb_spec d m) as [-> | Hne].
+    - replace (m <? S m) with true by (symmetry; apply Nat.ltb_lt; lia). reflexivity.
+    - destruct (Nat.ltb_spec d m); destruct (Nat.ltb_spec d (S m)); try lia; reflexivity.
+  Qed.
+
+  Lemma init_L_diag L0 U0 d : d < n -> fst (init_LU L0 U0) d d = 1!.
+  Proof.
+    intros Hd. unfold init_LU. rewrite init_fold_split. cbn [fst snd].
+    rewrite (sweeps_spec (fun j i => negb (Ap j i) && Lp j i) (fun _ _ => 0!) (fun i => range (i + 1) n) n
+                         (fun i => range_NoDup (i + 1) n)).
+    assert (Hin : existsb (Nat.eqb d) (range (d + 1) n) = false).
+    { destruct (existsb (Nat.eqb d) (range (d + 1) n)) eqn:E; [|reflexivity].
+      apply existsb_eqb_In in E. apply range_In in E. lia. }
+    rewrite Hin. rewrite Bool.andb_false_r. cbn [andb]. rewrite linit_diag.
+    destruct (Nat.ltb_spec d n); [reflexivity | lia].
+  Qed.
+
+  Lemma sep_step_diag i (L U : mat) d : i < n -> fst (sep_step (L, U) i) d d = L d d.
+  Proof.
+    intros Hi. unfold sep_step.
+    set (inv := ndiv N 1! (U i i)). set (J := range (i + 1) n).
+    assert (HJ : forall k, In k J <-> i < k /\ k < n) by (intros k; unfold J; rewrite range_In; lia).
+    destruct (scale_spec N Lp i inv J (range_NoDup (i + 1) n) L) as [_ SC2].
+    destruct (sep_outer_spec i J (range_NoDup (i + 1) n) (fun k Hk => proj1 (HJ k) Hk)
+                             (fold_left (ms_step N Lp i inv) J L) U) as [_ [_ FL]].
+    cbv zeta in SC2, FL. rewrite FL by (right; left; lia).
+    apply SC2. destruct (Nat.eq_dec d i) as [-> | Hne]; [right; left; rewrite HJ; lia | left; exact Hne].
+  Qed.
+
+  Lemma sep_steps_diag m : m <= n -> forall (L U : mat) d,
+    fst (fold_left sep_step (seq 0 m) (L, U)) d d = L d d.
+  Proof.
+    induction m as [|m IH]; intros Hm L U d; [reflexivity|].
+    rewrite seq_S, fold_left_app. cbn [fold_left plus].
+    assert (Hm' : m <= n) by lia. specialize (IH Hm' L U d).
+    destruct (fold_left sep_step (seq 0 m) (L, U)) as [Lm Um]. cbn [fst] in IH.
+    rewrite sep_step_diag by lia. exact IH.
+  Qed.
+
+  Theorem mozart_L_unit_diagonal L0 U0 d : d < n -> fst (mozart_num N n A Ap Lp Up L0 U0) d d = 1!.
+  Proof.
+    intros Hd. rewrite mozart_num_steps. rewrite (surjective_pairing (init_LU L0 U0)).
+    rewrite sep_steps_diag by apply le_n. apply init_L_diag. exact Hd.
+  Qed.
+
   Hypothesis HApU : forall r c, r <= c -> c < n -> Ap r c = true -> Up r c = true.
   Hypothesis HApL : forall r c, c < r -> r < n -> Ap r c = true -> Lp r c = true.
 
@@ -648,6 +710,104 @@ Section SymbolicMozart.
     - intros r c Hcr Hr Ha. apply HmL. apply P2; try lia; exact Ha.
     - intros i j k Hij Hik Hj Hk. apply Hclo; lia.
   Qed.
+
+  (* ---------- both patterns are triangular, and L's holds the whole diagonal ---------- *)
+  Definition TriP (Lp Up : pat) : Prop :=
+    (forall r c, Lp r c = true -> c <= r) /\ (forall r c, Up r c = true -> r <= c).
+
+  Lemma ph1_step_tri i Lp Up : TriP Lp Up -> TriP (fst (ph1_step (Lp, Up) i)) (snd (ph1_step (Lp, Up) i)).
+  Proof.
+    intros [TL TU]. unfold ph1_step. cbn [fst snd].
+    destruct (psweep_spec (fun j => Ap i j) (fun _ => i) (fun j => j) (seq 0 i) (pset Lp i i)) as [_ [_ F1]].
+    destruct (psweep_spec (fun j => Ap i j) (fun _ => i) (fun j => j) (range i n) Up) as [_ [_ F2]].
+    cbv beta zeta in F1, F2. split.
+    - intros r c H. destruct (Nat.le_gt_cases c r) as [Hle | Hgt]; [exact Hle|].
+      rewrite F1 in H.
+      + assert (Hne : r <> i \/ c <> i) by lia. rewrite (pset_other Lp i i r c Hne) in H. apply TL in H. lia.
+      + intros x Hx _. apply in_seq in Hx. lia.
+    - intros r c H. destruct (Nat.le_gt_cases r c) as [Hle | Hgt]; [exact Hle|].
+      rewrite F2 in H; [apply TU in H; lia|].
+      intros x Hx _. apply range_In in Hx. lia.
+  Qed.
+
+  Lemma ph1_tri m : forall Lp Up, TriP Lp Up ->
+    TriP (fst (fold_left ph1_step (seq 0 m) (Lp, Up))) (snd (fold_left ph1_step (seq 0 m) (Lp, Up))).
+  Proof.
+    induction m as [|m IH]; intros Lp Up HT; [exact HT|].
+    rewrite seq_S, fold_left_app. cbn [fold_left plus]. specialize (IH Lp Up HT).
+    destruct (fold_left ph1_step (seq 0 m) (Lp, Up)) as [L1 U1]. cbn [fst snd] in IH.
+    apply ph1_step_tri. exact IH.
+  Qed.
+
+  Lemma ph1_diag m : forall Lp Up i, i < m -> fst (fold_left ph1_step (seq 0 m) (Lp, Up)) i i = true.
+  Proof.
+    induction m as [|m IH]; intros Lp Up i Hi; [lia|].
+    rewrite seq_S, fold_left_app. cbn [fold_left plus]. specialize (IH Lp Up).
+    destruct (fold_left ph1_step (seq 0 m) (Lp, Up)) as [L1 U1]. cbn [fst snd] in IH.
+    unfold ph1_step. cbn [fst].
+    destruct (psweep_spec (fun j => Ap m j) (fun _ => m) (fun j => j) (seq 0 m) (pset L1 m m)) as [_ [SLm _]].
+    cbv beta zeta in SLm. apply SLm.
+    destruct (Nat.eq_dec i m) as [-> | Hne]; [apply pset_same | apply pset_mono; apply IH; lia].
+  Qed.
+
+  Lemma f2_k_tri i k Lp Up : i < k -> TriP Lp Up -> TriP (fst (f2_k i (Lp, Up) k)) (snd (f2_k i (Lp, Up) k)).
+  Proof.
+    intros Hik [TL TU].
+    destruct (f2_k_spec i k Lp Up Hik) as (_ & _ & _ & FL & _). cbv zeta in FL.
+    split.
+    - intros r c H. destruct (Nat.le_gt_cases c r) as [Hle | Hgt]; [exact Hle|].
+      rewrite FL in H; [apply TL in H; lia|].
+      destruct (Nat.eq_dec c k); [right; lia | left; assumption].
+    - intros r c H. destruct (Nat.le_gt_cases r c) as [Hle | Hgt]; [exact Hle|].
+      unfold f2_k in H. destruct (Up i k) eqn:E; cbn [snd] in H; [|apply TU in H; lia].
+      destruct (psweep_spec (fun j => Lp j i) (fun j => j) (fun _ => k) (range (i + 1) (k + 1)) Up) as [_ [_ U2]].
+      cbv beta zeta in U2. rewrite U2 in H; [apply TU in H; lia|].
+      intros x Hx _. apply range_In in Hx. destruct (Nat.eq_dec c k); [left; lia | right; assumption].
+  Qed.
+
+  Lemma f2_outer_tri i ks : (forall k, In k ks -> i < k) -> forall Lp Up, TriP Lp Up ->
+    TriP (fst (fold_left (f2_k i) ks (Lp, Up))) (snd (fold_left (f2_k i) ks (Lp, Up))).
+  Proof.
+    induction ks as [|k ks IH]; intros Hks Lp Up HT; cbn [fold_left]; [exact HT|].
+    rewrite (surjective_pairing (f2_k i (Lp, Up) k)).
+    apply IH; [intros k' Hk'; apply Hks; right; exact Hk' | apply f2_k_tri; [apply Hks; left; reflexivity | exact HT]].
+  Qed.
+
+  Lemma f2_step_tri i Lp Up : TriP Lp Up -> TriP (fst (f2_step (Lp, Up) i)) (snd (f2_step (Lp, Up) i)).
+  Proof.
+    intros [TL TU]. unfold f2_step.
+    apply f2_outer_tri; [intros k Hk; apply range_In in Hk; lia|].
+    destruct (psweep_spec (fun j => Ap j i) (fun j => j) (fun _ => i) (range (i + 1) n) Lp) as [_ [_ Q1f]].
+    cbv beta zeta in Q1f. split; [|exact TU].
+    intros r c H. destruct (Nat.le_gt_cases c r) as [Hle | Hgt]; [exact Hle|].
+    rewrite Q1f in H; [apply TL in H; lia|].
+    intros x Hx _. apply range_In in Hx. destruct (Nat.eq_dec c i); [left; lia | right; assumption].
+  Qed.
+
+  Lemma f2_steps_tri m : forall Lp Up, TriP Lp Up ->
+    TriP (fst (fold_left f2_step (seq 0 m) (Lp, Up))) (snd (fold_left f2_step (seq 0 m) (Lp, Up))).
+  Proof.
+    induction m as [|m IH]; intros Lp Up HT; [exact HT|].
+    rewrite seq_S, fold_left_app. cbn [fold_left plus]. specialize (IH Lp Up HT).
+    destruct (fold_left f2_step (seq 0 m) (Lp, Up)) as [L1 U1]. cbn [fst snd] in IH.
+    apply f2_step_tri. exact IH.
+  Qed.
+
+  Theorem mozart_sym_triangular :
+    let Lp := fst (mozart_sym n Ap) in
+    let Up := snd (mozart_sym n Ap) in
+    (forall r c, Lp r c = true -> c <= r) /\ (forall r c, Up r c = true -> r <= c) /\
+    (forall i, i < n -> Lp i i = true).
+  Proof.
+    cbv zeta. rewrite mozart_sym_steps.
+    pose proof (ph1_tri n pempty pempty) as HT1. pose proof (ph1_diag n pempty pempty) as HD1.
+    destruct (fold_left ph1_step (seq 0 n) (pempty, pempty)) as [L1 U1]. cbn [fst snd] in HT1, HD1.
+    assert (HT0 : TriP pempty pempty) by (split; intros r c H; discriminate H).
+    destruct (f2_steps_tri n L1 U1 (HT1 HT0)) as [TL TU].
+    destruct (f2_steps_inv L1 U1 n (le_n n)) as (HmL & _ & _).
+    split; [exact TL | split; [exact TU|]].
+    intros i Hi. apply HmL. apply HD1. exact Hi.
+  Qed.
 End SymbolicMozart.
 
 Theorem mozart_decomposition_correct :
@@ -666,4 +826,39 @@ Proof.
   intros N Nfield n A Ap L0 U0 Hd Lp Up LU Lf Uf Hpiv r c Hr Hc.
   destruct (mozart_sym_closed n Ap) as (HU & HL & Hclo). fold Lp Up in HU, HL, Hclo.
   exact (mozart_LU_eq_A N Nfield n A Ap Lp Up HU HL (fun i Hi => HU i i (le_n i) Hi (Hd i Hi)) Hclo L0 U0 Hpiv r c Hr Hc).
+Qed.
+
+(* ------------------------------------------------------------------------------------------
+   Factor, then solve (LuDecompositionMozart + LinearSolver): A x = b. *)
+Theorem mozart_factor_then_solve :
+  forall (N : Num)
+    (Nfield : field_theory (n0 N) (n1 N) (nadd N) (nmul N) (nsub N) (nopp N) (ndiv N) (ninv N) eq)
+    n (A : mat N) (Ap : pat) (L0 U0 : mat N) (b : vec N),
+    (forall i, i < n -> Ap i i = true) ->
+    let Lp := fst (mozart_sym n Ap) in
+    let Up := snd (mozart_sym n Ap) in
+    let LU := mozart_num N n A Ap Lp Up L0 U0 in
+    (forall i, i < n -> snd LU i i <> n0 N) ->
+    let x := lin_solve N n Lp Up (fst LU) (snd LU) b in
+    forall r, r < n -> nsum N n (fun c => nmul N (view N Ap A r c) (x c)) = b r.
+Proof.
+  intros N Nfield n A Ap L0 U0 b Hd Lp Up LU Hpiv x r Hr.
+  destruct (mozart_sym_closed n Ap) as (HU & _ & _). fold Lp Up in HU.
+  destruct (mozart_sym_triangular n Ap) as (TL & TU & TD). fold Lp Up in TL, TU, TD.
+  assert (HL1 : forall i, i < n -> fst LU i i = n1 N) by (intros i Hi; apply mozart_L_unit_diagonal; exact Hi).
+  assert (H10 : n1 N <> n0 N) by (destruct Nfield as [_ H _ _]; exact H).
+  apply (lin_solve_Ax_b N Nfield n (view N Ap A) Lp Up (fst LU) (snd LU) b).
+  - exact TL.
+  - exact TU.
+  - intros i Hi. repeat split; [apply TD; exact Hi | apply (HU i i (le_n i) Hi (Hd i Hi)) | rewrite (HL1 i Hi); exact H10 | apply Hpiv; exact Hi].
+  - intros r0 c0 Hr0 Hc0.
+    rewrite <- (mozart_decomposition_correct N Nfield n A Ap L0 U0 Hd Hpiv r0 c0 Hr0 Hc0).
+    apply (sum_ext N). intros j Hj. fold Lp Up LU. f_equal.
+    + unfold view. destruct (Nat.ltb_spec j r0) as [H|H]; [reflexivity|].
+      destruct (Nat.eqb_spec j r0) as [-> | Hne].
+      * rewrite (TD r0 Hr0). apply HL1. exact Hr0.
+      * destruct (Lp r0 j) eqn:E; [apply TL in E; lia | reflexivity].
+    + unfold view. destruct (Nat.leb_spec j c0) as [H|H]; [reflexivity|].
+      destruct (Up j c0) eqn:E; [apply TU in E; lia | reflexivity].
+  - exact Hr.
 Qed.
